@@ -360,7 +360,19 @@ impl<'a> V<'a> {
                 cx.name = "is_finite".into();
                 let vals = [ra, f64::INFINITY, f64::NEG_INFINITY, f64::NAN];
                 let v = vals[(case.n.rem_euclid(4)) as usize];
-                let x = T::from_flat(dims, &make_flat::<T::F>(&lay, v, &case.a, &case.pres_a, &case.zero));
+                let mut fx = make_flat::<T::F>(&lay, v, &case.a, &case.pres_a, &case.zero);
+                // half of the cases: some derivative parts are themselves inf / NaN (e.g. the result of
+                // sqrt at 0) - the predicates still only look at the real part
+                if case.n.rem_euclid(8) >= 4 {
+                    let nonfinite = [f64::INFINITY, f64::NAN, f64::NEG_INFINITY];
+                    for i in 1..fx.vals.len() {
+                        if (i + case.n.rem_euclid(3) as usize) % 2 == 0 {
+                            fx.vals[i] = nonfinite[(i + case.n.rem_euclid(5) as usize) % 3];
+                        }
+                    }
+                    st.class("predicates on a number with non-finite derivative parts");
+                }
+                let x = T::from_flat(dims, &fx);
                 if ComplexField::is_finite(&x) != v.is_finite() {
                     return Err(Verdict::Fail { sig: "C11/is_finite".into(), why: format!("is_finite of a number with real part {v} is {}", ComplexField::is_finite(&x)) });
                 }
